@@ -52,6 +52,11 @@ def malformed(maxlen, rng, extra=200):
                 if not is_name(s) and s not in seen:
                     seen.add(s)
                     yield s
+    # strings that mean something to %-formatting and str.format (error messages are formatted with the offending text)
+    for s in ("%", "%s", "%d", "%(note)s", "C%", "C%s", "{", "}", "{}", "{0}", "{note}", "C{", "C}", "C{0}", "%%", "\\", "C\\"):
+        if not is_name(s) and s not in seen:
+            seen.add(s)
+            yield s
     pool = "abcdefgABCDEFGH#b♯♭0123456789 -_/|xXé中\n\t"
     for _ in range(extra):
         n = rng.randint(1, 6)
